@@ -67,6 +67,11 @@ def gen_chain(rng):
     m0["assigns"].append({"target": "agg", "mode": "single", "n": 0, "expr": ("call1", f, g.var("bin"))})
     if rng.chance(1, 2):
         m0["assigns"].append({"target": "lastx", "mode": "single", "n": 0, "expr": ("call1", "last", g.var("bin"))})
+    two_actors = rng.chance(1, 3)
+    if two_actors:
+        # a clause of the same member whose dependency (another actor's signal) is unsatisfied in most rounds comes
+        # first: the clauses after it must still run in those rounds
+        m0["assigns"].insert(0, {"target": "pre", "mode": "single", "n": 0, "expr": ("bin", "add", g.var("s", "b"), g.num(1))})
     members = [m0]
     if rng.chance(2, 3):
         # a later member uses the value in the same round
@@ -87,16 +92,18 @@ def gen_chain(rng):
     obs = {"name": "w", "cond": None, "assigns": [], "expect": None,
            "watches": [("", "bin")] + ([("", "frozen")] if snapped else []) + ([("", "dep")] if any(m["name"] == "m1" for m in members) and rng.chance(1, 2) else []) + ([("", "agg")] if f != "sorted" and rng.chance(1, 2) else [])}
     members.append(obs)
-    return {"signals": [("s", "scalar")], "actors": ["a"], "members": members}
+    return {"signals": [("s", "scalar")], "actors": ["a", "b"] if two_actors else ["a"], "members": members}
 
 
-def gen_history(rng, n):
+def gen_history(rng, n, actors=("a",)):
     evs, t, mood = [], F(0), "clear"
     for _ in range(n):
         t += F(rng.range(1, 4), 2)
         if rng.chance(1, 5):
             mood = rng.pick(["red", "blue", "clear", "red"])
             evs.append(("mood", t, mood))
+        elif "b" in actors and rng.chance(1, 6):
+            evs.append(("sig", t, [("scalar", "b", "s", F(rng.range(0, 9)))]))
         else:
             evs.append(("sig", t, [("scalar", "a", "s", F(rng.range(0, 9), rng.pick([1, 1, 2])))]))
     return evs
@@ -111,7 +118,7 @@ def active_samples(cfg, evs):
         if e[0] == "mood":
             mood = e[2]
         else:
-            if not red_only or mood == "red":
+            if (not red_only or mood == "red") and e[2][0][1] == "a":
                 res.append(e[2][0][3])
     return res
 
@@ -181,7 +188,7 @@ def run(tier, seed):
     nch = 250 if tier == "quick" else 5000
     for _ in range(nch):
         cfg = gen_chain(rng)
-        evs = gen_history(rng, rng.range(0, 40))
+        evs = gen_history(rng, rng.range(0, 40), actors=cfg["actors"])
         text = g.config_text(cfg)
         r = impl.call("audition", Args={"Parse": {"Text": text}, "Events": g.events_json(evs), "EpochOffset": float(TEND)})
         if r.get("Panicked") or r.get("harnessCrash") or (r.get("Err") or "").startswith("config:"):
@@ -196,7 +203,8 @@ def run(tier, seed):
             rep.count("unmodelled")
             continue
         rep.case(("chain", text, json.dumps([str(e) for e in evs])), nontrivial=len(evs) > 0)
-        rep.count("chain:" + cfg["members"][0]["assigns"][0]["mode"])
+        a_bin = next(a for a in cfg["members"][0]["assigns"] if a["target"] == "bin")
+        rep.count("chain:" + a_bin["mode"] + (":after a clause with other dependencies" if cfg["members"][0]["assigns"][0]["target"] == "pre" else ""))
         keep = lambda it: it[0] == "obs" and it[3][0] == "" and it[3][1] not in ("t", "mood", "moodt")
         d = g.stream_diff(im, mo, TEND, keep=keep)
         vd = None
@@ -224,7 +232,7 @@ def run(tier, seed):
                     ofail.append({"what": "variable %s changed without an assignment being collected" % vn, "config": text, "events": g.events_json(evs),
                                   "impl": fin, "oracle": "last collected value %s" % (lastobs[vn],), "tag": {"fn": "silent-change", "var": vn}})
                 rep.count("silent-change-oracle")
-        a0 = cfg["members"][0]["assigns"][0]
+        a0 = a_bin
         if a0["expr"] == g.var("s", "a") and im["abort"] == "none":
             prod = active_samples(cfg, evs)
             o = model.ask("C11 collectspec %s %d %s %s" % (a0["mode"], a0["n"], ",".join(g.sc_tok(v) for v in prod) or "-", impl_val_tok(im["vars"].get("bin"))))
